@@ -29,6 +29,10 @@ inductive E
   | ge (a : E) (b : E)
   | and_ (a : E) (b : E)
   | or_ (a : E) (b : E)
+  | tt
+  | ff
+  | not_ (e : E)
+  | mul (a : E) (b : E)
   deriving Repr, DecidableEq, Inhabited
 
 inductive S
@@ -111,6 +115,15 @@ def evalE (valFn : List Char → Int) (env : Env) : E → EvalRes
       | _, _ => .stuck
   | .or_ a b => match evalE valFn env a, evalE valFn env b with
       | .val (.b x), .val (.b y) => .val (.b (x || y))
+      | .err c, _ => .err c
+      | _, .err c => .err c
+      | _, _ => .stuck
+  | .tt => .val (.b true)
+  | .ff => .val (.b false)
+  | .not_ e => match evalE valFn env e with
+      | .val (.b x) => .val (.b (!x)) | .err c => .err c | _ => .stuck
+  | .mul a b => match evalE valFn env a, evalE valFn env b with
+      | .val (.n x), .val (.n y) => .val (.n (x * y))
       | .err c, _ => .err c
       | _, .err c => .err c
       | _, _ => .stuck
